@@ -24,6 +24,7 @@ func init() {
 			"O5 preflight nodes become prenodes of every non-preflight sub-node and setPrenode recurses into sub-pipelines, " +
 			"O6 a merge over a run-time fork count whose ForkNode is nil (meaning the mapped call itself, as the runtime's fallback shows) still yields a prenode: FindRefs adds a Call-derived reference or a function reachable from makePrenodesForBinding handles the nil case. " +
 			"O4 also: every loop over the node's disabling conditions enumerates the references inside each entry (FindRefs), so a condition wrapped by a mapped call still yields its prenode. " +
+			"O2b if a scan of Fork.chunks in the state function starts at a position remembered in a field, every function replacing Fork.chunks clears that field. " +
 			"NOT decided: that FindRefs returns every reference, metadata state derivation from real files, job manager scheduling.",
 		Assumptions: commonAssumptions,
 	}
@@ -36,6 +37,7 @@ func runC02(c *an.Ctx) {
 	ruleO4(c)
 	ruleO5(c)
 	ruleO6(c)
+	ruleO2b(c)
 }
 
 // ---------------------------------------------------------------------------
